@@ -178,11 +178,13 @@ impl ArgMatcher {
                 Some(compare_macro) => {
                     let span = pat_macro.mac.path.span();
                     let tokens = pat_macro.mac.tokens;
-                    let local_ident = syn::Ident::new(&format!("l{local_counter}"), span);
+                    // both identifiers are local to the expansion: with mixed-site hygiene a user
+                    // binding that happens to be called `l0` or `m0` can neither capture nor clash with them
+                    let local_span = span.resolved_at(proc_macro2::Span::mixed_site());
+                    let local_ident = syn::Ident::new(&format!("l{local_counter}"), local_span);
                     *local_counter += 1;
 
-                    let pat_bind_ident =
-                        syn::Ident::new(&format!("m{index}"), pat_macro.mac.path.span());
+                    let pat_bind_ident = syn::Ident::new(&format!("m{index}"), local_span);
 
                     Self::Compare(CompareMatcher {
                         span,
